@@ -242,14 +242,31 @@ func runScenario(run *evid.Run, reg ociregistry.Interface, repo string, s *scena
 		run.Count("resumes_before_commit", 1)
 	}
 	if s.Fault == 2 {
-		wrong := model.Digest(append([]byte("not "), s.Content...))
+		other := append([]byte("not "), s.Content...)
+		wrong := model.Digest(other)
+		held := (len(s.Content)+len(s.Parts))%2 == 1
+		if held {
+			// the digest quoted is that of a blob the repository already holds: it is still not this upload's
+			_, perr := reg.PushBlob(bg, repo, ociregistry.Descriptor{MediaType: "application/octet-stream", Digest: ociregistry.Digest(wrong), Size: int64(len(other))}, bytes.NewReader(other))
+			log("PushBlob(another blob, whose digest the commit will quote)", perr)
+			held = perr == nil
+		}
 		_, cerr := w.Commit(ociregistry.Digest(wrong))
 		log("Commit(wrong digest)", cerr)
 		run.Count("wrong_digest_commits", 1)
+		if held {
+			run.Count("wrong_digest_commits_quoting_a_held_blob", 1)
+		}
 		if cerr == nil {
 			bad("wrong-digest-committed", "Commit with a digest that is not the content's succeeded")
 		}
 		for name, d := range map[string]string{"wrong": wrong, "true": trueDigest} {
+			if held && name == "wrong" {
+				if data, gerr := readBlob(reg, repo, d); gerr != nil || !bytes.Equal(data, other) {
+					bad("wrong-digest-stored/held-blob-changed", fmt.Sprintf("after a failed commit quoting the digest of a held blob, that blob reads as %d bytes (err=%v); it had %d", len(data), gerr, len(other)))
+				}
+				continue
+			}
 			if data, gerr := readBlob(reg, repo, d); gerr == nil {
 				bad("wrong-digest-stored/"+name, fmt.Sprintf("after a failed commit a blob (%d bytes) is retrievable under the %s digest", len(data), name))
 			}
@@ -725,5 +742,6 @@ func main() {
 	run.FloorCounter("wrong_offset_resumes", 50)
 	run.FloorCounter("wrong_offset_data_sent_by_commit", 10)
 	run.FloorCounter("wrong_digest_commits", 50)
+	run.FloorCounter("wrong_digest_commits_quoting_a_held_blob", 15)
 	run.Finish()
 }
